@@ -10,8 +10,8 @@
     Rust's float formatting and parsing ([f64::to_string], [f32::to_string],
     [str::parse::<f64>], the [as] casts) are library code: they enter as the fields of a
     [float_ops] record, by IEEE bit pattern.  Definitions only (proofs: Codec/SqlLoadLaws.v). *)
+From Coq Require Import Strings.String.
 From Coq Require Import List ZArith Bool.
-From Coq Require Strings.String.
 From VibeSQL Require Import Value.SqlValue Value.Dec Value.RStr Value.Temporal.
 Import ListNotations.
 Open Scope Z_scope.
